@@ -18,7 +18,10 @@ package main
 //                    (a second waiter on one slot would make the wake-up order a race: `busy`)
 //        cancel T    cancel T's context
 //        close       Close() the instance stored in hydra's swamps map
-// reply: <event> live=<constructed − closed> mapped=<0|1> cur=<index of the mapped wait slot|-> slots=[k:ready:count …]
+//        closeold K / destroyold K   Close() / Destroy() on the K-th instance ever constructed (0,1,…) through a
+//                    handle kept from the time it was mapped — stale or not (gateway.Destroy holds no vigil;
+//                    Destroy always ends in the close callback, also after an earlier Close)
+// reply: <event> live=<instances constructed and not closing/closed> made=<swamp.New calls> mapped=<0|1> cur=<index of the mapped wait slot|-> slots=[k:ready:count …]
 //
 // Thread identity travels in the context passed to SummonSwamp (the hooks hand the ctx back).
 
@@ -35,6 +38,7 @@ import (
 	"time"
 
 	"github.com/hydraide/hydraide/app/core/hydra"
+	"github.com/hydraide/hydraide/app/core/hydra/swamp"
 	"github.com/hydraide/hydraide/app/core/settings"
 	"github.com/hydraide/hydraide/app/name"
 	"github.com/hydraide/hydraide/app/verifhook"
@@ -67,6 +71,8 @@ type c18World struct {
 	passAll bool
 	threads map[int]*c18Thread
 	slots   []*hydra.SwampWaiter
+	insts   []swamp.Swamp // every instance seen in the swamps map, in construction order
+	destroyed map[int]bool
 	news    atomic.Int64
 	closed  atomic.Int64
 	broken  bool
@@ -184,10 +190,29 @@ func (w *c18World) slotIndex(s *hydra.SwampWaiter) string {
 	return "?"
 }
 
+// note records the instance that is mapped right now (handles are what a stale caller would hold).
+func (w *c18World) note() {
+	if s, ok := hydra.VerifMappedSwamp(w.hy, w.swName.Get()); ok {
+		for _, x := range w.insts {
+			if x == s {
+				return
+			}
+		}
+		w.insts = append(w.insts, s)
+	}
+}
+
 func (w *c18World) state() string {
+	w.note()
 	mapped := 0
 	if _, ok := hydra.VerifMappedSwamp(w.hy, w.swName.Get()); ok {
 		mapped = 1
+	}
+	live := 0
+	for _, x := range w.insts {
+		if !x.IsClosing() {
+			live++
+		}
 	}
 	cur := "-"
 	if s, ok := hydra.VerifSummonSlot(w.hy, w.swName.Get()); ok {
@@ -202,7 +227,7 @@ func (w *c18World) state() string {
 		}
 		ss = append(ss, fmt.Sprintf("%d:%d:%d", i, rb, c))
 	}
-	return fmt.Sprintf("live=%d mapped=%d cur=%s slots=[%s]", w.news.Load()-w.closed.Load(), mapped, cur, strings.Join(ss, " "))
+	return fmt.Sprintf("live=%d made=%d mapped=%d cur=%s slots=[%s]", live, w.news.Load(), mapped, cur, strings.Join(ss, " "))
 }
 
 // waitersOf lists the threads parked on a slot (to be called before the slot's owner is released).
@@ -278,7 +303,10 @@ func genC18(rng *rand.Rand, tier string, w *bufio.Writer) {
 	fmt.Fprintln(w, "case 0\ngo 1\ngo 1\ngo 2\ngo 2\ncancel 1\ngo 1\ngo 1\ngo 1\ngo 3\ngo 3\ngo 2\ngo 3\ngo 2\ngo 3")
 	fmt.Fprintln(w, "case 1\ngo 1\ngo 1\ngo 1\ngo 1\ngo 1\ngo 1\ngo 2\ngo 2\ngo 2\ngo 2\ngo 2")
 	fmt.Fprintln(w, "case 2\ngo 1\ngo 1\ngo 2\ngo 2\ngo 1\ngo 1\ngo 1\ngo 1\ngo 2\ngo 2\ngo 2\nclose\ngo 3\ngo 3\ngo 3\ngo 3")
-	for c := 3; c < cases; c++ {
+	// the stale close callback: instance 0 closes, instance 1 is summoned, Destroy() on the old handle
+	// deletes the map entry by name, the next summoner constructs instance 2 next to the live instance 1
+	fmt.Fprintln(w, "case 3\ngo 1\ngo 1\ngo 1\ngo 1\ngo 1\ngo 1\nclose\ngo 2\ngo 2\ngo 2\ngo 2\ngo 2\ngo 2\ndestroyold 0\ngo 3\ngo 3\ngo 3\ngo 3\ncloseold 1\ndestroyold 1\ndestroyold 1")
+	for c := 4; c < cases; c++ {
 		fmt.Fprintf(w, "case %d\n", c)
 		n := 6 + rng.Intn(maxLen)
 		nt := 2 + rng.Intn(3)
@@ -287,10 +315,14 @@ func genC18(rng *rand.Rand, tier string, w *bufio.Writer) {
 			switch {
 			case r < 86:
 				fmt.Fprintf(w, "go %d\n", 1+rng.Intn(nt))
-			case r < 95:
+			case r < 93:
 				fmt.Fprintf(w, "cancel %d\n", 1+rng.Intn(nt))
-			default:
+			case r < 96:
 				fmt.Fprintln(w, "close")
+			case r < 98:
+				fmt.Fprintf(w, "destroyold %d\n", rng.Intn(3))
+			default:
+				fmt.Fprintf(w, "closeold %d\n", rng.Intn(3))
 			}
 		}
 	}
@@ -312,7 +344,7 @@ func runC18(in *bufio.Scanner, out *bufio.Writer) {
 		if w != nil {
 			w.cleanup()
 		}
-		w = &c18World{hy: rig.Zeus.GetHydra(), events: make(chan c18Event, 64), threads: map[int]*c18Thread{},
+		w = &c18World{hy: rig.Zeus.GetHydra(), events: make(chan c18Event, 64), threads: map[int]*c18Thread{}, destroyed: map[int]bool{},
 			swName: name.New().Sanctuary("c18").Realm("case").Swamp(fmt.Sprintf("%s-%d", caseNo, runID))}
 		verifhook.SetHandler(w.handler)
 	}
@@ -362,6 +394,38 @@ func runC18(in *bufio.Scanner, out *bufio.Writer) {
 				w.timeout()
 				fmt.Fprintf(out, "close unexpected-timeout %s\n", w.state())
 			}
+		case "closeold", "destroyold":
+			k, err := strconv.Atoi(f[len(f)-1])
+			if err != nil || len(f) != 2 || k < 0 || k >= len(w.insts) {
+				fmt.Fprintln(out, "skip")
+				break
+			}
+			inst := w.insts[k]
+			res := "noop"
+			if f[0] == "closeold" {
+				if !inst.IsClosing() {
+					res = "ok"
+				}
+			} else if !w.destroyed[k] {
+				res = "ok"
+				w.destroyed[k] = true
+			}
+			fin := make(chan struct{})
+			go func() {
+				if f[0] == "closeold" {
+					inst.Close()
+				} else {
+					inst.Destroy()
+				}
+				close(fin)
+			}()
+			select {
+			case <-fin:
+			case <-time.After(3 * time.Second):
+				w.timeout()
+				res = "unexpected-timeout"
+			}
+			fmt.Fprintf(out, "%s %d %s %s\n", f[0], k, res, w.state())
 		case "go":
 			t, _ := strconv.Atoi(f[1])
 			if t < 1 || t > 6 {
